@@ -62,6 +62,9 @@ var c15Ignores = []string{
 	"is required",
 	"shellcheck reported",       // matches nothing
 	"(input|secret) \"[a-z]+\"", // grouping, quotes
+	"(?i)THIS MATCHES NOTHING",  // an inline flag must stay inside its own pattern
+	"LABEL|PROPERTY|UNDEFINED",  // matches nothing unless another pattern's (?i) leaks into it
+	"\\Qa.b",                    // unterminated quoting: literal text, matches nothing
 }
 
 func genC15Config(c *Chooser) (cfg string, entries map[string][]string, order []string) {
@@ -166,6 +169,10 @@ func (c15) Eval(c *Chooser, env *Env) *Outcome {
 	sib := ""
 	if c.Bool("world.sibling") {
 		sib = root + "-tools"
+		if c.Bool("world.casesibling") {
+			// a repository whose root differs from the first one only in letter case
+			sib = path.Dir(root) + "/" + strings.ToUpper(path.Base(root))
+		}
 		disk.MkdirAll(sib + "/.git")
 		disk.Put(sib+"/.github/workflows/a0.yml", []byte("on: push\njobs:\n  s:\n    runs-on: bogus-label\n    steps:\n      - run: echo ${{ matrix.nope }}\n"))
 		disk.Put(sib+"/.github/actionlint.yaml", []byte("paths:\n  '**/*':\n    ignore: ['is unknown']\n"))
